@@ -1,0 +1,105 @@
+//go:build verif
+
+package pipeline
+
+import "sync/atomic"
+
+// Verification hooks, compiled only with -tags verif.
+// verifTrace reports one labelled step from inside the critical section that performs it;
+// verifGate is a scheduling point at which a test harness may hold the calling goroutine.
+
+// Trace label kinds.
+const (
+	vtBatchAdd         = 1
+	vtBatchFree        = 2
+	vtBatchSeal        = 3
+	vtBatchPush        = 4
+	vtBatchTake        = 5
+	vtBatchOutBegin    = 6
+	vtBatchOutEnd      = 7
+	vtBatchCommitBegin = 8
+	vtBatchCommitEnd   = 9
+	vtBatchStop        = 10
+	vtBatchTick        = 11
+	vtRetryCall        = 12
+	vtRetryResult      = 13
+	vtRetryGiveUp      = 14
+	vtBatchNotReady    = 15
+)
+
+// Gate points.
+const (
+	vgBatchAfterUnlock      = 1
+	vgBatchBeforeCommitWait = 2
+)
+
+// Exported names of the labels for the harness.
+const (
+	VtBatchAdd              = vtBatchAdd
+	VtBatchFree             = vtBatchFree
+	VtBatchSeal             = vtBatchSeal
+	VtBatchPush             = vtBatchPush
+	VtBatchTake             = vtBatchTake
+	VtBatchOutBegin         = vtBatchOutBegin
+	VtBatchOutEnd           = vtBatchOutEnd
+	VtBatchCommitBegin      = vtBatchCommitBegin
+	VtBatchCommitEnd        = vtBatchCommitEnd
+	VtBatchStop             = vtBatchStop
+	VtBatchTick             = vtBatchTick
+	VtRetryCall             = vtRetryCall
+	VtRetryResult           = vtRetryResult
+	VtRetryGiveUp           = vtRetryGiveUp
+	VtBatchNotReady         = vtBatchNotReady
+	VgBatchAfterUnlock      = vgBatchAfterUnlock
+	VgBatchBeforeCommitWait = vgBatchBeforeCommitWait
+)
+
+type (
+	VerifTraceFunc func(kind int, obj any, a, b, c, d int64)
+	VerifGateFunc  func(point int, obj any)
+)
+
+var (
+	verifTraceFn atomic.Pointer[VerifTraceFunc]
+	verifGateFn  atomic.Pointer[VerifGateFunc]
+)
+
+// SetVerifHooks installs (or, with nil, removes) the callbacks.
+func SetVerifHooks(t VerifTraceFunc, g VerifGateFunc) {
+	if t == nil {
+		verifTraceFn.Store(nil)
+	} else {
+		verifTraceFn.Store(&t)
+	}
+	if g == nil {
+		verifGateFn.Store(nil)
+	} else {
+		verifGateFn.Store(&g)
+	}
+}
+
+func verifTrace(kind int, obj any, a, b, c, d int64) {
+	if f := verifTraceFn.Load(); f != nil {
+		(*f)(kind, obj, a, b, c, d)
+	}
+}
+
+func verifGate(point int, obj any) {
+	if f := verifGateFn.Load(); f != nil {
+		(*f)(point, obj)
+	}
+}
+
+func verifBool(b bool) int64 {
+	if b {
+		return 1
+	}
+	return 0
+}
+
+func verifBatchSeq(b *Batch) int64 {
+	if b == nil {
+		return -1
+	}
+	return b.seq
+}
